@@ -21,8 +21,17 @@ func vEff(s string) { vEffLog = append(vEffLog, s) }
 
 var vAllowed bool // what the policy says for this call's (client, resource, action)
 
+// vPolicySeq, when not empty, is what the policy says for the next checks in
+// order (a policy reload between two messages of one streaming call).
+var vPolicySeq []bool
+
 func vInstallAuthzStandIns() {
 	vIntercept("(*github.com/liftbridge-io/liftbridge/server.apiServer).enforcePolicy", func(a *apiServer, sub, obj, act string) (bool, error) {
+		if len(vPolicySeq) > 0 {
+			r := vPolicySeq[0]
+			vPolicySeq = vPolicySeq[1:]
+			return r, nil
+		}
 		return vAllowed, nil
 	})
 	m := "(*github.com/liftbridge-io/liftbridge/server.metadataAPI)."
@@ -132,7 +141,7 @@ func VerifC15Authz() {
 	vEffLog = nil
 	vAllowed = vNondetBool("policy-allows")
 	ctx := context.WithValue(context.Background(), "clientID", "alice")
-	method := vChoose(vParam("methods", 16))
+	method := vChoose(vParam("methods", 17))
 	var err error
 	read := false
 	ungated := false
@@ -174,6 +183,31 @@ func VerifC15Authz() {
 			vAssert(len(ps.errs) >= 1, "an unauthorised async publish is answered with an error")
 			err = errors.New("refused via the response stream")
 		}
+	case 16: // PublishAsync: two messages on one session; the policy allows the
+		// first and is reloaded before the second (its answer then is the
+		// symbolic one): the reload takes effect for the second message
+		vPolicySeq = []bool{true, vAllowed}
+		ps := &vPubStream{ctx: ctx, reqs: []*client.PublishRequest{
+			{Stream: "s", Value: []byte{1}, CorrelationId: "x", AckPolicy: client.AckPolicy_NONE},
+			{Stream: "s", Value: []byte{2}, CorrelationId: "y", AckPolicy: client.AckPolicy_NONE}}}
+		err = a.PublishAsync(ps)
+		vPolicySeq = nil
+		vYield()
+		pubs := 0
+		for _, e := range vEffLog {
+			if e == "publish" {
+				pubs++
+			}
+		}
+		if !vAllowed {
+			vAssert(len(ps.errs) >= 1, "after a policy reload that revokes the permission the next async publish is answered with an error")
+			vAssert(pubs == 1, "after a policy reload that revokes the permission no further message of the session is published")
+			vCover("denied-after-reload")
+		} else {
+			vAssert(pubs == 2, "both messages of an authorised session are published")
+			vCover("allowed")
+		}
+		return
 	case 12:
 		_, err = a.JoinConsumerGroup(ctx, &client.JoinConsumerGroupRequest{GroupId: "g", ConsumerId: "intruder", Streams: []string{"s"}})
 		ungated = true
